@@ -367,9 +367,7 @@ fn verify_extreme_spectra<V: Variant>(ctx: &mut Ctx) {
     let mut sm = salt.to_vec();
     sm.extend_from_slice(msg);
     let c = crate::refmodel::keccak::hash_to_point(&sm, n, None);
-    let mut x = vec![0u32; n];
-    x[1] = 1;
-    let slot_root: Vec<i64> = falcon_rust::verif_hooks::felt_fft(&x).iter().map(|&v| v as i64).collect();
+    let slot_root: Vec<i64> = super::c11::slot_roots(n);
     let inv = crate::refmodel::zq::inverse_table();
     let ninv = inv[(n as i64 % 12289) as usize];
     let ipow: Vec<Vec<i64>> = slot_root.iter().map(|&w| { let wi = inv[w as usize]; let mut v = vec![1i64; n]; for j in 1..n { v[j] = v[j - 1] * wi % 12289; } v }).collect();
